@@ -486,15 +486,21 @@ class PWLCalibration(keras.layers.Layer):
       result = tf.matmul(interpolation_weights, bias_and_heights)
 
     if self.impute_missing:
-      if is_missing is None:
-        if self.missing_input_value is None:
-          raise ValueError("PWLCalibration layer is configured to impute "
-                           "missing but no 'missing_input_value' specified and "
-                           "'is_missing' tensor is not given.")
+      if is_missing is None and self.missing_input_value is None:
+        raise ValueError("PWLCalibration layer is configured to impute "
+                         "missing but no 'missing_input_value' specified and "
+                         "'is_missing' tensor is not given.")
+      if self.missing_input_value is not None:
+        # Inputs equal to 'missing_input_value' are missing, also when an
+        # explicit 'is_missing' tensor marks further inputs as missing.
         assert self._missing_input_value_tensor is not None
-        is_missing = tf.cast(
+        equals_missing_value = tf.cast(
             tf.equal(inputs, self._missing_input_value_tensor),
             dtype=self.dtype)
+        if is_missing is None:
+          is_missing = equals_missing_value
+        else:
+          is_missing = tf.maximum(is_missing, equals_missing_value)
       result = is_missing * self.missing_output + (1.0 - is_missing) * result
 
     if self.units > 1 and self.split_outputs:
